@@ -514,6 +514,9 @@ void scan_deps(const std::string& orig_portname, std::string cur_portname,
         return abs;
     };
 
+    // the port this call looks at (the loop shortens cur_portname)
+    const std::string scanned_portname = cur_portname;
+
     // this port and all parent ports can be enabled by another port, so check them all
     bool is_parent = false; // cur_portname is a parent of the port we started at
     for(std::string::size_type last_slash;
@@ -538,6 +541,8 @@ void scan_deps(const std::string& orig_portname, std::string cur_portname,
                     if(!*enabled_by)
                         break; // "a,b," (as rDepends writes it): no entry behind the last comma
                     std::string abs = rel2abs(enabled_by, cur_portname);
+                    if(abs == scanned_portname)
+                        continue; // a sub-tree enabled by a port of its own ("sub/enabled"): that port does not wait for itself
                     auto itr = message_map.find(abs);
                     if(itr != message_map.end())  // port is in the savefile
                     {
